@@ -162,7 +162,7 @@ def run(P, rep, tier):
     except Unfoldable:
         flags = re.MULTILINE
     rep.extra['flags'] = flags
-    rep.extra['states'] = {k: len(v) for k, v in table.items()}
+    rep.extra['lexer_states'] = {k: len(v) for k, v in table.items()}
     loc0 = '%s:%d' % (mod.relpath, cls.node.lineno)
 
     def loc(rule):
